@@ -468,7 +468,8 @@ PROPS["C12"] = {
                   "(`tnorm`, `keyOk`), supplied per case by the harness from chrono and `Key::key_id`.",
     "trusted": ["modelled, not verified: serde / serde_json parsing of text into values, chrono DateTime round trip, signature primitives",
                 "the schema table (Tough/Model/Schema.lean) is a hand transcription of tough/src/schema/mod.rs, checked only by correspondence"],
-    "assumptions": ["signatures are unforgeable", "strings of the generated documents are NFC (no NFC table is passed)"],
+    "assumptions": ["signatures are unforgeable", "strings of the generated documents are NFC (no NFC table is passed)",
+                    "for roles_never_share_signed_bytes: string normalisation fixes the four role tags and maps nothing but `_type` to `_type` (TagOk; true of Unicode NFC, satisfied by `id`)"],
 }
 
 PROPS["C19"] = {
@@ -583,7 +584,8 @@ PROPS["C10"] = {
                   "differential runs (their effect on document contents is C17's editor model). Known finding: listed targets "
                   "whose names need URL escaping do not download through file:// (same as C19).",
     "trusted": ["modelled, not verified: key parsing, signature primitives, serde serialisation of the written files"],
-    "assumptions": ["key files name distinct keys"],
+    "assumptions": ["key files name distinct keys",
+                    "editor_roundtrip: serialisation is abstract (a buffer has a length and a digest); the client holds the same, validly self-signed root, a fresh datastore, a clock before the four expiration times, max_root_updates > 0 and room for the timestamp file"],
 }
 
 _PENDING = "check under construction in this session (DESIGN.md §10 order of work); not claimed until it runs"
